@@ -16,7 +16,7 @@ from ..pyvc import (Interp, LoopSpec, Obj, OutsideSubset, PyRaise, exc_name, get
 
 MOD = "mici.stagers"
 # the first three decisions of every path are the input-shape choices of _inputs()
-ROOTS = [[a, b, c] for a in range(3) for b in range(2) for c in range(2)]
+ROOTS = [[a, b, c] for a in range(5) for b in range(2) for c in range(2)]
 
 
 class StageLog:
@@ -135,13 +135,17 @@ def _inputs(ctx):
     fastA = Opaque("fast_adapter", is_fast=True)
     slowA = Opaque("slow_adapter", is_fast=False)
     fastB = Opaque("fast_adapter_2", is_fast=True)
-    mix = ctx.choose(3, "adapter-mix")
+    mix = ctx.choose(5, "adapter-mix")
     if mix == 0:
         adapters = {"integration_transition": [fastA, slowA]}
     elif mix == 1:
         adapters = {"integration_transition": [slowA, fastA, fastB], "other_transition": [slowA]}
-    else:
+    elif mix == 2:
         adapters = {"integration_transition": [fastA]}
+    elif mix == 3:
+        adapters = {"integration_transition": [slowA]}  # no fast adapter at all: the fast stages still count towards n_warm_up_iter
+    else:
+        adapters = {"integration_transition": []}
     tf = ctx.choose(2, "trace_funcs")
     trace_funcs = None if tf == 0 else [Opaque("trace_func_a"), Opaque("trace_func_b")]
     trace_warm_up = bool(ctx.choose(2, "trace_warm_up"))
